@@ -1102,6 +1102,11 @@ func (v *VMValue) AttrSet(ctx *Context, name string, val *VMValue) *VMValue {
 		return val
 	case VMTypeNativeObject:
 		od, _ := v.ReadNativeObjectData()
+		if od.AttrSet == nil {
+			// 例如从JSON还原出来的空壳对象
+			ctx.Error = errors.New("此对象不支持设置属性")
+			return nil
+		}
 		od.AttrSet(ctx, name, val)
 		return val
 	}
@@ -1167,9 +1172,11 @@ func (v *VMValue) AttrGet(ctx *Context, name string) *VMValue {
 		return ret
 	case VMTypeNativeObject:
 		od, _ := v.ReadNativeObjectData()
-		ret := od.AttrGet(ctx, name)
-		if ret != nil {
-			return ret
+		if od.AttrGet != nil {
+			ret := od.AttrGet(ctx, name)
+			if ret != nil {
+				return ret
+			}
 		}
 	}
 
@@ -1220,6 +1227,10 @@ func (v *VMValue) ItemGet(ctx *Context, index *VMValue) *VMValue {
 		}
 	case VMTypeNativeObject:
 		od, _ := v.ReadNativeObjectData()
+		if od.ItemGet == nil {
+			ctx.Error = errors.New("此对象不支持取下标")
+			return nil
+		}
 		ret := od.ItemGet(ctx, index)
 		if ret == nil {
 			ret = NewNullVal()
@@ -1249,6 +1260,10 @@ func (v *VMValue) ItemSet(ctx *Context, index *VMValue, val *VMValue) bool {
 		}
 	case VMTypeNativeObject:
 		od, _ := v.ReadNativeObjectData()
+		if od.ItemSet == nil {
+			ctx.Error = errors.New("此对象不支持赋值下标")
+			return false
+		}
 		od.ItemSet(ctx, index, val)
 		if ctx.Error == nil {
 			return true
